@@ -6,7 +6,9 @@ EntrySet == {"solver", "permeate_composition", "separation_factor", "ideal_curve
              "solver_nearby_T", "ideal_noniso_other_step",
              \* calls that FAIL are modelling calls too (an infeasible permeate side, a contradictory specification), and so are calls
              \* on a caller-owned grid that contains the pure end points
-             "solver_infeasible", "solver_contradictory", "ideal_curve_ends", "ideal_curve_ends_other_model", "solver_ends"}
+             "solver_infeasible", "solver_contradictory", "ideal_curve_ends", "ideal_curve_ends_other_model", "solver_ends",
+             \* the same state asked to another precision
+             "solver_other_precision"}
 ObjectSet == {"membrane", "mixture", "curve_set", "conditions", "measurements", "pervaporation", "builtins"}
 Done == Len(log) = MaxCalls /\ PrintT(<<"HISTORY", ToJson([j \in 1..Len(log) |-> log[j].entry])>>) /\ UNCHANGED vars
 SimSpec == Init /\ [][Next \/ Done]_vars
